@@ -36,7 +36,7 @@ type c03Second struct {
 }
 
 type c03Job struct {
-	Igs  string     `json:"igs"` // L1 | T1 | R1 | L1+T1
+	Igs  string     `json:"igs"` // L1 | T1 | R1 | TR1 | L1+T1 | T1+R1 | T1+TR1
 	N    int        `json:"n"`
 	B0   int        `json:"b0"`
 	B1   int        `json:"b1"`
@@ -63,7 +63,7 @@ func init() {
 		ID:        "C03",
 		Level:     "model_checking",
 		Technique: "stateless model checking of the real pipeline (controlled scheduler over instrumented code, fake Postgres, simulated node): a chain indexed with batch b0, restart with batch b1/conc, then every interleaving (preemption-bounded, reorg landing at every RPC point) of the task thread(s) with an environment thread applying growth and one or two reorgs; oracle = independent projection of the final canonical chain + frame condition on every commit diff",
-		Rule: "jobs = integration sets {L1 (headers+logs), T1 (blocks), R1 (blocks+receipts), L1+T1 and (thorough) T1+R1 sharing one source client} x n in {4,5} (thorough 6) x index batch b0 in 1..3 x batch b1 in 1..3 x conc in {1,2} x pre-growth {0,1} x fork depth d in 1..3 x replacement length r in {d-1,d,d+1,d+2} x content {same, log removed, added, moved} x post-growth {0,1} x optional second reorg at fork-1/fork/fork+1 (equal or longer); thorough = the product with content/growth flags rotating over it, quick = a hand-picked covering subset (see c03Jobs); " +
+		Rule: "jobs = integration sets {L1 (headers+logs), T1 (blocks), R1 (blocks+receipts), TR1 (blocks+traces), and L1+T1, T1+R1, T1+TR1 sharing one source client} x n in {4,5} (thorough 6) x index batch b0 in 1..3 x batch b1 in 1..3 x conc in {1,2} x pre-growth {0,1} x fork depth d in 1..3 x replacement length r in {d-1,d,d+1,d+2} x content {same, log removed, added, moved} x post-growth {0,1} x optional second reorg at fork-1/fork/fork+1 (equal or longer); thorough = the product with content/growth flags rotating over it, quick = a hand-picked covering subset (see c03Jobs); " +
 			"per job every schedule of task thread(s) and the environment thread with <= 1 deviation (thorough: 2 on the single-integration jobs with index batch 1), free switches at step boundaries and between environment operations, environment switches otherwise only at RPC points; both partition orders when conc=2 and index batch 1. An execution is non-trivial when the code under test deleted at least one row or cursor (a reorg was unwound) or the oracle rejected it; distinct = distinct (job, choice sequence).",
 		Assumptions: []string{
 			"fake Postgres (h/simpg) interprets the SQL shovel sends; simulated node (h/simeth) answers like a well-behaved geth that switches chains atomically between two requests",
@@ -148,8 +148,10 @@ func c03Jobs(thorough bool) []c03Job {
 		grid("L1", []int{6}, []int{2, 3}, []int{1, 3}, []int{1}, []int{1, 2, 3})
 		grid("T1", []int{5}, []int{1, 2, 3}, []int{1, 2, 3}, []int{1, 2}, []int{1, 2, 3})
 		grid("R1", []int{5}, []int{1, 2, 3}, []int{1, 2, 3}, []int{1, 2}, []int{1, 2, 3})
+		grid("TR1", []int{5}, []int{1, 2, 3}, []int{1, 2, 3}, []int{1, 2}, []int{1, 2, 3})
 		grid("L1+T1", []int{4}, []int{1, 2, 3}, []int{1, 2}, []int{1}, []int{1, 2})
 		grid("T1+R1", []int{4}, []int{1, 2}, []int{1, 2}, []int{1}, []int{1, 2})
+		grid("T1+TR1", []int{4}, []int{1, 2}, []int{1, 2}, []int{1}, []int{1, 2})
 		// two deviations on the single-integration jobs with index batch 1
 		for i := range jobs {
 			if jobs[i].B0 == 1 && !strings.Contains(jobs[i].Igs, "+") {
@@ -157,13 +159,13 @@ func c03Jobs(thorough bool) []c03Job {
 			}
 		}
 		// repeated / nested reorgs
-		for _, ig := range []string{"L1", "T1", "R1", "L1+T1"} {
+		for _, ig := range []string{"L1", "T1", "R1", "TR1", "L1+T1"} {
 			for _, b0 := range []int{1, 2, 3} {
 				for _, b1 := range []int{1, 2} {
 					for _, d := range []int{1, 2} {
 						for _, off := range []int{-1, 0, 1} {
 							for _, extra := range []int{0, 1} {
-								if len(ig) > 2 { // several tasks: the two reorgs are the only environment operations
+								if strings.Contains(ig, "+") { // several tasks: the two reorgs are the only environment operations
 									add(c03Job{Igs: ig, N: 4, B0: b0, B1: b1, Conc: 1, D: d, R: d + 1, Var: "same", Sec: &c03Second{Off: off, Extra: 1}})
 									continue
 								}
@@ -187,7 +189,7 @@ func c03Jobs(thorough bool) []c03Job {
 		}
 	}
 	// B: T1 / R1, index batch 1
-	for _, ig := range []string{"T1", "R1"} {
+	for _, ig := range []string{"T1", "R1", "TR1"} {
 		for i, dr := range [][2]int{{1, 2}, {2, 1}, {2, 3}, {3, 2}} {
 			for pre := 0; pre <= 1; pre++ {
 				h := i + pre*2 + len(ig)
@@ -211,6 +213,7 @@ func c03Jobs(thorough bool) []c03Job {
 		for i, dr := range [][2]int{{1, 2}, {2, 3}, {3, 2}} {
 			add(c03Job{Igs: "T1", N: 5, B0: b0, B1: 1 + (i+b0)%3, Conc: 1, Pre: i % 2, D: dr[0], R: dr[1], Var: vars[(i+b0)%4], Post: 1})
 			add(c03Job{Igs: "R1", N: 4 + i%2, B0: b0, B1: 1 + (i+b0+1)%3, Conc: 1, Pre: (i + 1) % 2, D: dr[0], R: dr[1], Var: vars[(i+b0+2)%4], Post: 1})
+			add(c03Job{Igs: "TR1", N: 4 + (i+1)%2, B0: b0, B1: 1 + (i+b0+2)%3, Conc: 1, Pre: i % 2, D: dr[0], R: dr[1], Var: vars[(i+b0+3)%4], Post: 1})
 		}
 	}
 	add(c03Job{Igs: "L1", N: 4, B0: 2, B1: 2, Conc: 2, Pre: 1, D: 1, R: 2, Var: "same", Post: 1})
@@ -219,12 +222,15 @@ func c03Jobs(thorough bool) []c03Job {
 		add(c03Job{Igs: "L1+T1", N: 4, B0: x[0], B1: x[1], Conc: 1, Pre: x[4], D: x[2], R: x[3], Var: vars[i%4], Post: x[5]})
 	}
 	add(c03Job{Igs: "T1+R1", N: 4, B0: 1, B1: 1, Conc: 1, Pre: 1, D: 1, R: 2, Var: "same", Post: 0})
+	add(c03Job{Igs: "T1+TR1", N: 4, B0: 1, B1: 1, Conc: 1, Pre: 1, D: 1, R: 2, Var: "same", Post: 0})
+	add(c03Job{Igs: "T1+TR1", N: 4, B0: 2, B1: 1, Conc: 1, Pre: 1, D: 2, R: 3, Var: "removed", Post: 0})
 	// F: repeated / nested reorgs
 	for i, off := range []int{-1, 0, 1} {
 		add(c03Job{Igs: "L1", N: 4, B0: 1, B1: 1, Conc: 1, Pre: i % 2, D: 1, R: 2, Var: "same", Post: 1, Sec: &c03Second{Off: off, Extra: 1}})
 		add(c03Job{Igs: "T1", N: 4, B0: 1, B1: 2, Conc: 1, Pre: 1 - i%2, D: 2, R: 3, Var: "same", Post: 1, Sec: &c03Second{Off: off, Extra: i % 2}})
 	}
 	add(c03Job{Igs: "L1+T1", N: 4, B0: 1, B1: 1, Conc: 1, Pre: 0, D: 1, R: 2, Var: "same", Post: 0, Sec: &c03Second{Off: 0, Extra: 1}})
+	add(c03Job{Igs: "TR1", N: 4, B0: 1, B1: 1, Conc: 1, Pre: 1, D: 2, R: 3, Var: "same", Post: 1, Sec: &c03Second{Off: -1, Extra: 1}})
 	return jobs
 }
 
@@ -311,8 +317,10 @@ var c03PrepCache = map[string]*c03Prep{}
 func c03Decls(igs string) []*world.Decl {
 	src := world.SrcRef{Name: "src1", Start: 1}
 	switch igs {
-	case "L1", "T1", "R1":
+	case "L1", "T1", "R1", "TR1":
 		return []*world.Decl{shape(igs, "ig1", "t1", src)}
+	case "T1+TR1": // transaction indexing next to trace indexing (both read the client's block cache)
+		return []*world.Decl{shape("T1", "ig1", "t1", src), shape("TR1", "ig2", "t2", src)}
 	case "L1+T1":
 		return []*world.Decl{shape("L1", "ig1", "t1", src), shape("T1", "ig2", "t2", src)}
 	case "T1+R1": // both read the client's block cache
